@@ -139,7 +139,7 @@ func (d *Driver) randomScenario(name string, maxClients, maxBatches int, fsOnly 
 	r := d.Rng
 	nc := 1 + r.Intn(maxClients)
 	ids := allIds[:2+r.Intn(2)]
-	scn := Scenario{Name: name, Ids: allIds}
+	scn := Scenario{Name: name, Ids: allIds, RootObs: true}
 	for c := 0; c < nc; c++ {
 		nb := 1 + r.Intn(maxBatches)
 		var bs []BatchSpec
@@ -284,7 +284,7 @@ func biasedOps(r *rand.Rand, ids []string, recent []string) []ctl.Op {
 
 func (d *Driver) mergeScenario() Scenario {
 	r := d.Rng
-	scn := Scenario{Name: "merge", Ids: allIds}
+	scn := Scenario{Name: "merge", Ids: allIds, RootObs: true}
 	nc := 1 + r.Intn(2)
 	var recent []string
 	for c := 0; c < nc; c++ {
@@ -474,6 +474,30 @@ func (d *Driver) RunFamily(fam string, runs int) {
 			scn.Readers = 0
 			scn.Second = false
 			d.simple(scn, NewPrioSched(r.Int63(), 2, 100), nil)
+		}
+	case "memmerge":
+		// several in-memory segments pile up behind a starved persister next to an
+		// already persisted segment that receives deletes: the in-memory merge and
+		// its equivalent snapshot, with crash images
+		for i := 0; i < runs; i++ {
+			scn := Scenario{Name: "memmerge", Ids: allIds, RootObs: true, Images: i%2 == 0, CloseLast: r.Intn(2) == 0}
+			scn.Opts = ctl.Opts{Path: "FS", Unsafe: r.Intn(2) == 0, SegVersion: 1 + r.Intn(2), KeepN: 1 + r.Intn(2),
+				MinMemMerge: 2, Merge: []string{"none", "none", "eager2"}[r.Intn(3)]}
+			first := BatchSpec{Ops: []ctl.Op{{Kind: "upd", ID: "a"}, {Kind: "upd", ID: "b"}, {Kind: "upd", ID: "c"}}}
+			nc := 2 + r.Intn(2)
+			for c := 0; c < nc; c++ {
+				var bs []BatchSpec
+				if c == 0 {
+					bs = append(bs, first)
+				}
+				for b := 0; b < 1+r.Intn(2); b++ {
+					bs = append(bs, BatchSpec{Ops: biasedOps(r, allIds, []string{"a", "b", "c"}), CB: r.Intn(3) == 0})
+				}
+				scn.Clients = append(scn.Clients, bs)
+			}
+			ps := NewPrioSched(r.Int63(), 3, 150)
+			ps.LowProc, ps.LowFrom, ps.LowTo = "pers", 8+r.Intn(25), 60+r.Intn(60)
+			d.simple(scn, ps, nil)
 		}
 	case "crash2":
 		for i := 0; i < runs; i++ {
